@@ -77,7 +77,8 @@ def verify_contract(args):
     if c.trusted:
         out["status"] = "trusted"
         return out
-    rng = random.Random(seed * 7919 + int(hashlib.sha256(qual.encode()).hexdigest()[:8], 16))
+    rseed = seed * 7919 + int(hashlib.sha256(qual.encode()).hexdigest()[:8], 16)
+    rng = random.Random(rseed)
     lock = load_lock().get(qual, {})
     if c.timeout:
         timeout_ms = max(timeout_ms, c.timeout)
@@ -146,11 +147,12 @@ def verify_contract(args):
                     fail["model_error"] = "%s: %s" % (type(e).__name__, e)
             if not fail["replayed"] and c.native:
                 try:
-                    argmap, o, tried, valid = native.search_violation(c, rng, 4000 if tier == "quick" else 40000)
+                    argmap, o, tried, valid = native.search_violation(c, rseed + 1, 4000 if tier == "quick" else 40000)
                     fail["search"] = {"tried": tried, "valid": valid}
                     if argmap is not None:
                         fail["replayed"] = True
                         fail["inputs"] = repr(argmap)
+                        fail["gen_replay"] = {"seed": rseed + 1, "index": native.LAST_INDEX[0]}
                         fail["native_failed"] = o.failed
                         fail["from"] = "native small-scope search"
                 except Exception as e:
@@ -177,10 +179,11 @@ def verify_contract(args):
     if c.native:
         n = (300 if tier == "quick" else 5000)
         try:
-            argmap, o, tried, valid = native.search_violation(c, rng, n)
+            argmap, o, tried, valid = native.search_violation(c, rseed + 2, n)
             out["native"] = {"tried": tried, "valid": valid, "violation": None}
             if argmap is not None:
-                out["native"]["violation"] = {"inputs": repr(argmap), "failed": o.failed}
+                out["native"]["violation"] = {"inputs": repr(argmap), "failed": o.failed,
+                                              "gen_replay": {"seed": rseed + 2, "index": native.LAST_INDEX[0]}}
         except Exception as e:
             out["native"] = {"error": "%s: %s" % (type(e).__name__, e), "tb": traceback.format_exc()[-800:]}
     out["wall_s"] = round(time.time() - t0, 3)
@@ -453,6 +456,7 @@ def summarize(pid, tier, seed, results, wall):
             elif st == "bounded":
                 path = write_replay(pid, r["function"].split(":")[1] + ".bounded",
                                     {"property": pid, "function": fq, "inputs": v["inputs"], "native_failed": v["failed"],
+                                     "gen_replay": v.get("gen_replay"),
                                      "obligation": fq.split(":")[1] + ".bounded"})
                 lines.append("VIOLATION property=%s replay=%s" % (pid, path))
                 violations += 1
@@ -547,7 +551,10 @@ def replay(path):
         return 0 if ok else 1
     if d.get("function") and d.get("inputs") and d["function"] in api.REG:
         c = api.REG[d["function"]]
-        argmap = native.to_real(ast.literal_eval(d["inputs"]))
+        if d.get("gen_replay"):
+            argmap = native.regenerate(c, d["gen_replay"]["seed"], d["gen_replay"]["index"])
+        else:
+            argmap = native.to_real(ast.literal_eval(d["inputs"]))
         o = native.check_native(c, argmap)
         print("inputs:", argmap)
         print("precondition holds:", o.pre_ok, "| raised:", repr(o.raised), "| result:", repr(o.result)[:300])
